@@ -52,3 +52,8 @@ EDITS += [
      "patch": "seeded/C20-dispatch-helper-swallows-valueerror/patch.diff"},
 ]
 
+
+# round 9 (a generalisation that is almost right)
+EDITS += [
+    {'id': 'r9-levels-left-out-default-over-all', 'expect': 'fire', 'rule': 'C09.O4', 'file': 'spowtd/rise.py', 'old': '    for discrete_zeta, crossings in zeta_mapping.items():\n        for series_id, mean_crossing_depth_mm in crossings:', 'new': '    for discrete_zeta, crossings in zeta_mapping.items():\n        if discrete_zeta > 0:\n            continue\n        for series_id, mean_crossing_depth_mm in crossings:'},
+]
